@@ -35,6 +35,29 @@ func vh_C14_write_write_read_close() {
 	}
 }
 
+// reads only before the CLOSE (the barrier covers reads just as writes; added
+// after seeded change C14-b)
+func vh_C14_read_read_close() {
+	vErrKinds = 0
+	svr := vNewServer(false, "")
+	f := &vMFile{name: "/o", data: []byte{1, 2, 3, 4}, yield: true}
+	svr.openFiles["1"] = f
+	resp := vPipelineOpt(svr, []requestPacket{
+		&sshFxpReadPacket{ID: 1, Handle: "1", Offset: 0, Len: 1},
+		&sshFxpReadPacket{ID: 2, Handle: "1", Offset: 2, Len: 1},
+		&sshFxpClosePacket{ID: 3, Handle: "1"},
+	}, false)
+	vAssert(f.closed == 1, "file closed exactly once")
+	vAssert(f.inAtClose == 0, "no read in flight when Close runs")
+	vAssert(f.afterClose == 0, "no read after Close")
+	vAssert(f.reads == 2, "both reads ran")
+	vAssert(len(resp) == 3, "three responses")
+	if len(resp) == 3 {
+		vAssert(resp[0][4] == sshFxpData && resp[1][4] == sshFxpData, "both reads return data")
+		vAssert(vRespID(resp[2]) == 3, "the CLOSE completes last")
+	}
+}
+
 // two handles: the close of one waits for (all) earlier reads/writes; requests
 // on the other handle keep flowing
 //
